@@ -50,9 +50,9 @@ func main() {
 				}
 			}
 			for _, kp := range keep {
-				if kp.Orig != kp.Clone {
+				if now := kp.Now(); now != kp.Clone {
 					mu.Lock()
-					bad["returned-string-changed"] = fmt.Sprintf("%q became %q", kp.Clone, kp.Orig)
+					bad["returned-value-changed"] = fmt.Sprintf("%q became %q", kp.Clone, now)
 					mu.Unlock()
 				}
 			}
